@@ -23,4 +23,5 @@ def plans(tier):
 
 
 def run(tier):
-    return pc.run_check("C11", tier, ("C11",), plans(tier), clauses={"RemoveGone", "DispatchToUnknown", "Spurious503"})
+    return pc.run_check("C11", tier, ("C11",), plans(tier), clauses={"RemoveGone", "DispatchToUnknown", "Spurious503"},
+                        alias={"switch", "switch3"})
